@@ -3,11 +3,11 @@ package checks
 import (
 	"encoding/json"
 
+	"fmt"
 	"github.com/lidofinance/dc4bc/client/api/dto"
 	"github.com/lidofinance/dc4bc/client/types"
 	"github.com/lidofinance/dc4bc/fsm/fsm"
 	spf "github.com/lidofinance/dc4bc/fsm/state_machines/signature_proposal_fsm"
-	"fmt"
 	"os"
 	"sort"
 	"strings"
